@@ -206,6 +206,13 @@ func (p *TUDPTransport) WriteString(s string) (int, error) {
 	return n, thrift.NewTTransportExceptionFromError(err)
 }
 
+// Discard drops everything written since the last Flush. A writer that gives
+// up on a message after a failed write calls it so that the abandoned part is
+// not sent in front of the next message.
+func (p *TUDPTransport) Discard() {
+	p.writeBuf.Reset()
+}
+
 // Flush flushes the write buffer as one udp packet
 func (p *TUDPTransport) Flush() error {
 	if !p.IsOpen() {
